@@ -702,6 +702,9 @@ impl Typer {
             if let Some(method_ty) = trait_env.lookup_trait_method(&type_ident, &member_ident) {
                 let inst_method_ty = self.inst_ty(&method_ty);
 
+                // The receiver is inferred once: first to see whether it is a `dyn` value,
+                // and the result is the first argument of the static call below.
+                let mut inferred_receiver = None;
                 if let tast::Ty::TFunc { params, ret_ty } = &inst_method_ty
                     && !args.is_empty()
                 {
@@ -792,12 +795,19 @@ impl Typer {
                             ty: (**ret_ty).clone(),
                         };
                     }
+                    inferred_receiver = Some(receiver_tast);
                 }
 
                 let mut args_tast = Vec::new();
                 let mut arg_types = Vec::new();
-                for arg in args.iter() {
-                    let arg_tast = self.infer_expr(genv, local_env, diagnostics, *arg);
+                for (idx, arg) in args.iter().enumerate() {
+                    let arg_tast = if idx == 0
+                        && let Some(receiver_tast) = inferred_receiver.take()
+                    {
+                        receiver_tast
+                    } else {
+                        self.infer_expr(genv, local_env, diagnostics, *arg)
+                    };
                     arg_types.push(arg_tast.get_ty());
                     args_tast.push(arg_tast);
                 }
